@@ -160,6 +160,12 @@ Proof.
     + intros j p s Hj. apply nth_error_set_nth_cases in Hj. destruct Hj as [[-> Hz]|[N Hj]]; [inversion Hz; subst; eauto|eauto].
     + intros j s Hj. apply nth_error_set_nth_cases in Hj. destruct Hj as [[-> Hz]|[N Hj]]; [discriminate|].
       keep_iw Iw j s Hj.
+  - (* WSubscribe *)
+    destruct (nth_error (w_rx w) i) as [[[| | |] s0]|] eqn:E; try discriminate. inversion H; subst w'; clear H.
+    unfold wm_inv, latest; simpl. repeat split; auto.
+    + intros j p s Hj. apply nth_error_set_nth_cases in Hj. destruct Hj as [[-> Hz]|[N Hj]]; [inversion Hz; subst; lia|eauto].
+    + intros j s Hj. apply nth_error_set_nth_cases in Hj. destruct Hj as [[-> Hz]|[N Hj]]; [discriminate|].
+      keep_iw Iw j s Hj.
 Qed.
 
 Lemma wm_inv_run : forall steps w w', wrun w steps = Some w' -> wm_inv w -> wm_inv w'.
